@@ -135,7 +135,7 @@ DefsFor(s, preS, postS) ==
   CASE s.u.kind \in {"install", "upgrade"} -> ChartHooks(s.u.chart)
     [] s.u.kind = "rollback" -> LET t == RollbackTarget(preS.store, s.u) IN
                                 IF t \in Revs(preS.store) THEN preS.store[t].hooks ELSE <<>>
-    [] s.u.kind = "uninstall" -> IF Revs(preS.store) = {} THEN <<>> ELSE preS.store[MaxOf(Revs(preS.store))].hooks
+    [] s.u.kind \in {"uninstall", "test"} -> IF Revs(preS.store) = {} THEN <<>> ELSE preS.store[MaxOf(Revs(preS.store))].hooks
     [] OTHER -> <<>>
 
 ManIdsFor(s, preS) ==
